@@ -98,6 +98,7 @@ type c08srvFrame struct {
 	Len    uint32 // frame payload length (flow-controlled length for DATA)
 	Inc    uint32 // WINDOW_UPDATE
 	Code   ErrCode
+	Last   uint32 // GOAWAY: last stream id the sender will process
 	Ack    bool
 	End    bool // END_STREAM
 }
@@ -111,7 +112,7 @@ func (f c08srvFrame) String() string {
 	case FrameRSTStream:
 		return fmt.Sprintf("RST_STREAM(s=%d,%v)", f.Stream, f.Code)
 	case FrameGoAway:
-		return fmt.Sprintf("GOAWAY(%v)", f.Code)
+		return fmt.Sprintf("GOAWAY(last=%d,%v)", f.Last, f.Code)
 	case FrameSettings:
 		return fmt.Sprintf("SETTINGS(ack=%v)", f.Ack)
 	case FrameHeaders:
@@ -286,6 +287,7 @@ func (e *c08srvEnv) drain() []c08srvFrame {
 			r.Code = f.ErrCode
 		case *GoAwayFrame:
 			r.Code = f.ErrCode
+			r.Last = f.LastStreamID
 		case *SettingsFrame:
 			r.Ack = f.IsAck()
 			if !r.Ack {
